@@ -35,6 +35,7 @@ import (
 	"sort"
 	"strconv"
 	"strings"
+	"sync"
 	"time"
 
 	"github.com/rs/zerolog"
@@ -62,6 +63,9 @@ type op struct {
 	// reset
 	maxCols, maxPts int
 	variant         string
+	// concurrent phase: requests of worker `worker` (≥ 1) are issued one after the other by their own
+	// client, side by side with the other workers' requests (see storm.go)
+	worker int
 }
 
 func hx(s string) string {
@@ -109,8 +113,13 @@ func (o op) line() string {
 		return "sleep"
 	case "disk":
 		return "disk u=" + hx(o.user)
+	case "storm":
+		return "storm " + o.variant
 	}
 	p := "u=" + hx(o.user) + " " + o.kind
+	if o.worker > 0 {
+		p = fmt.Sprintf("w=%d ", o.worker) + p
+	}
 	switch o.kind {
 	case "create":
 		v := "2"
@@ -145,7 +154,17 @@ func parseLine(line string) (op, error) {
 	}
 	var o op
 	var err error
+	if strings.HasPrefix(toks[0], "w=") && len(toks) > 1 {
+		o.worker, _ = strconv.Atoi(toks[0][2:])
+		toks = toks[1:]
+	}
 	switch toks[0] {
+	case "storm":
+		o.kind = "storm"
+		if len(toks) > 1 {
+			o.variant = toks[1]
+		}
+		return o, nil
 	case "variant":
 		o.kind, o.variant = "variant", toks[1]
 		return o, nil
@@ -217,6 +236,7 @@ type env struct {
 	srv      *httptest.Server
 	client   *http.Client
 	canon    map[string]string // shard uuid → canonical name given on the op line
+	canonMu  sync.Mutex
 	timeout  int
 	variant  string
 	sleepFor time.Duration
@@ -326,6 +346,8 @@ func (e *env) learnShards(user, c, sid string) {
 	if err != nil {
 		return
 	}
+	e.canonMu.Lock()
+	defer e.canonMu.Unlock()
 	for _, s := range col.ShardIds {
 		if _, ok := e.canon[s]; !ok {
 			e.canon[s] = sid
@@ -341,7 +363,7 @@ func (e *env) exec(o op) (out string) {
 	}()
 	colPath := "/v2/collections/" + url.PathEscape(o.c)
 	switch o.kind {
-	case "reset", "variant":
+	case "reset", "variant", "storm":
 		return "ok"
 	case "sleep":
 		time.Sleep(e.sleepFor)
@@ -513,6 +535,14 @@ func plain(u string) bool {
 
 var userPool = []string{"a", "ab", "abc", "abcd", "xyz", "xy", "abcxyz", "usr", "userCollections", "A", "aB", "ab.", "ab0", "ab-", ".a", "..a", "...",
 	"a.b", "\xc3\xa9", "ab cd", "*", "%2F", "ab\\cd", "abc\\", ".", "..", "a/b", "/", "ab/", "abc/xyz", "../abc", "./abc"}
+// ids that differ only in characters a sanitiser might fold together (none contains '/' or '\\')
+var confusable = [][]string{
+	{"a.b", "a_b", "a:b", "a|b", "a b", "a-b", "a+b"},
+	{"acme.eu", "acme_eu", "acme-eu", "acme:eu"},
+	{"abc", "ABC", "Abc", "abC"},
+	{"ab", "ab_", "ab.", "ab-", "ab~"},
+}
+
 var colPool = []string{"abc", "abcd", "xyz", "xyzabc", "cde", "usercollections", "abcdefghijklmnopqrstuvwx", "a1b2c3"}
 
 // collections created through the v1 API carry a fixed vector schema (no integer index "k"), so
@@ -532,10 +562,19 @@ func genScenario(r *vh.Rng, variant string, sidCounter *int) scenario {
 	sc := scenario{maxCols: 1 + r.Intn(3), maxPts: 3 + r.Intn(6)}
 	nu := 2 + r.Intn(2)
 	var users []string
+	// one scenario in eight: tenants whose ids become equal under some "harmless" normalisation (other
+	// separator-like characters, case, surrounding blanks are trimmed by net/http so inner blank only)
+	var family []string
+	if r.Chance(12) {
+		family = vh.Pick(r, confusable)
+	}
 	for len(users) < nu {
 		u := vh.Pick(r, userPool)
 		if r.Chance(55) {
 			u = vh.Pick(r, userPool[:10])
+		}
+		if family != nil {
+			u = vh.Pick(r, family)
 		}
 		if variant == "pinned" && strings.Contains(u, "/") {
 			continue // outside the property's domain ("user ids without '/'"); only meaningful once refused
@@ -549,6 +588,9 @@ func genScenario(r *vh.Rng, variant string, sidCounter *int) scenario {
 		}
 	}
 	cols := []string{vh.Pick(r, colPool), vh.Pick(r, colPool), vh.Pick(r, colPool)}
+	if family != nil {
+		cols = cols[:1+r.Intn(2)] // few names, so that the tenants own equally named collections
+	}
 	for _, u := range users { // another user's id as collection name
 		if len(u) >= 3 && r.Chance(50) {
 			cols = append(cols, u)
@@ -764,9 +806,14 @@ func probeVariant() string {
 }
 
 func main() {
+	// own network namespace (or, failing that, an exclusive lock): no port can be taken by, and no
+	// connection can come from, another run on this machine; recorded ports of a replay are always free
+	vh.IsolateNet("c16")
 	zerolog.SetGlobalLevel(zerolog.Disabled)
 	seed := flag.Uint64("seed", 1, "PRNG seed")
 	n := flag.Int("n", 100, "random scenarios")
+	nstorm := flag.Int("storm", 20, "random scenarios with a concurrent phase (clients of name-colliding tenants side by side)")
+	stormOps := flag.Int("stormops", 24, "requests per client in the concurrent phase")
 	dir := flag.String("out", "", "output directory")
 	replay := flag.String("replay", "", "replay the op lines of this file against the implementation (prints impl answers)")
 	flag.Parse()
@@ -783,6 +830,19 @@ func main() {
 	}
 	o.Emit("variant", "variant "+variant, "ok", false)
 	sid := 0
+	// concurrent phase: corpus first, then random tenants / scripts
+	nStormFail := 0
+	storms := stormCorpus(&sid)
+	for i := 0; i < *nstorm; i++ {
+		storms = append(storms, genStorm(rng, &sid, *stormOps/2+rng.Intn(*stormOps)))
+	}
+	tStorm := time.Now()
+	for i, sc := range storms {
+		if nStormFail < 3 && doStorm(o, sc, variant, shardTimeout, i) {
+			nStormFail++
+		}
+	}
+	stormS := time.Since(tStorm).Seconds()
 	scs := witnessScenarios(&sid)
 	if variant == "pinned" && *n > 60 {
 		*n = 60 // every "sleep" costs 1.6 s on this variant and the verdict does not depend on more scenarios
@@ -851,6 +911,8 @@ func main() {
 		"variant":       variant,
 		"scenarios":     len(scs),
 		"scenarios_two": multi,
+		"storms":        len(storms),
+		"storm_s":       stormS,
 		"harness_s":     time.Since(t0).Seconds(),
 	})
 }
@@ -911,6 +973,8 @@ func doReplay(path string) {
 	var e *env
 	sc := bufio.NewScanner(f)
 	sc.Buffer(make([]byte, 1<<20), 1<<24)
+	var stormOpsBuf []op // between `storm begin` and `storm end`: the clients' requests, run side by side at `end`
+	inStorm := false
 	for sc.Scan() {
 		line := strings.TrimSpace(sc.Text())
 		if line == "" || strings.HasPrefix(line, "#") {
@@ -919,6 +983,40 @@ func doReplay(path string) {
 		p, err := parseLine(line)
 		if err != nil {
 			fmt.Println("bad-op")
+			continue
+		}
+		if p.kind == "storm" {
+			if p.variant == "begin" {
+				fmt.Println("ok")
+				inStorm, stormOpsBuf = true, nil
+				continue
+			}
+			if inStorm && e != nil {
+				// group by client, run side by side, print the answers in line order
+				idx := map[int]int{}
+				var workers [][]op
+				var pos [][2]int
+				for _, q := range stormOpsBuf {
+					k, ok := idx[q.worker]
+					if !ok {
+						k = len(workers)
+						idx[q.worker] = k
+						workers = append(workers, nil)
+					}
+					pos = append(pos, [2]int{k, len(workers[k])})
+					workers[k] = append(workers[k], q)
+				}
+				res := runStorm(e, workers)
+				for _, ij := range pos {
+					fmt.Println(res[ij[0]][ij[1]])
+				}
+			}
+			inStorm = false
+			fmt.Println("ok")
+			continue
+		}
+		if inStorm && p.worker > 0 && e != nil {
+			stormOpsBuf = append(stormOpsBuf, p)
 			continue
 		}
 		if p.kind == "reset" || e == nil {
